@@ -166,6 +166,17 @@ def find_overlap_site(ctx, func, search, rule):
             call = c
     if call is None:
         raise AnalysisError(rule, func.where(), f"no call of {search.qualname}")
+    # the whole segment list of the contig is searched: lower bound 0, upper bound len(list) (a start position remembered from
+    # an earlier step of the path is only right while the steps come in ascending order — a reverse walk over a bubble,
+    # a walk that returns to an earlier position, is then searched to the right of where it lies)
+    if len(call.args) == 5:
+        lo_a, hi_a = call.args[3], call.args[4]
+        from .common import key_of as _kof
+
+        if not (const_value(lo_a, None) == 0):
+            ctx.violated(rule, func.where(call), f"the interval search is started at `{norm(lo_a)[:50]}`, not at the first segment of the contig: an interval that lies left of that position is not found, and the segments under it are missing from the result", _kof(func, f"search-lower-bound:{norm(lo_a)[:30]}"))
+        if not (isinstance(hi_a, ast.Call) and norm(hi_a.func) == "len" and hi_a.args and norm(hi_a.args[0]) == norm(call.args[0])) and not isinstance(hi_a, ast.Name):
+            ctx.violated(rule, func.where(call), f"the interval search ends at `{norm(hi_a)[:50]}`, not at the end of the contig's segment list", _kof(func, f"search-upper-bound:{norm(hi_a)[:30]}"))
     # window variables: `lo, hi = search(...)`
     asg = None
     for st in walk_own(func.node):
@@ -177,6 +188,19 @@ def find_overlap_site(ctx, func, search, rule):
     loops = [n for n in walk_own(func.node) if isinstance(n, ast.For) and isinstance(n.iter, ast.Subscript) and isinstance(n.iter.slice, ast.Slice) and norm(n.iter.value) == norm(call.args[0])]
     if len(loops) != 1:
         raise AnalysisError(rule, func.where(call), f"expected one loop over the searched segment list window, found {len(loops)}")
+    # segments kept by the overlap loop are not taken out again afterwards (a "de-duplication" of a boundary segment also
+    # removes a segment the walk really passes twice: a self loop `>s2>s2`)
+    kept = {norm(c_.func.value) for c_ in ast.walk(loops[0]) if isinstance(c_, ast.Call) and isinstance(c_.func, ast.Attribute) and c_.func.attr == "append" and isinstance(c_.func.value, ast.Name)}
+    for x_ in walk_own(func.node):
+        gone = None
+        if isinstance(x_, ast.Delete) and any(isinstance(t_, ast.Subscript) and norm(t_.value) in kept for t_ in x_.targets):
+            gone = norm(x_)
+        elif isinstance(x_, ast.Call) and isinstance(x_.func, ast.Attribute) and x_.func.attr in ("pop", "remove", "clear") and norm(x_.func.value) in kept:
+            gone = norm(x_)
+        if gone and not any(y_ is x_ for y_ in ast.walk(loops[0])):
+            from .common import key_of as _key_of
+
+            ctx.violated(rule, func.where(x_), f"`{gone[:50]}` removes a segment that the overlap filter kept for this interval: when consecutive intervals of the path really cover the same segment twice (a self loop `>s2>s2`, a walk that returns to a segment) the second visit disappears from the unstable path and the path no longer has the length its columns say", _key_of(func, f"kept-segment-removed:{gone[:40]}"))
     site = OverlapSite(func, loops[0], call)
     site.lo, site.hi = lo, hi
     site.slice = loops[0].iter.slice
